@@ -6,8 +6,11 @@ import (
 	"bytes"
 	"fmt"
 	"os"
+	"path/filepath"
 	"sync"
+	"syscall"
 	"testing"
+	"time"
 
 	"pgregory.net/rapid"
 )
@@ -172,22 +175,74 @@ func vfRunStatic(t *testing.T, prop string, concCases int) {
 // DetectFile must classify them by their bytes like every other entry point.
 func vfProcfs(check func(path string, content []byte, viaFile *MIME, err error) error) (int, error) {
 	n := 0
-	for _, p := range []string{"/proc/self/cmdline", "/proc/version", "/proc/self/environ", "/proc/filesystems"} {
-		b, err := os.ReadFile(p)
-		if err != nil || len(b) == 0 {
-			continue
+	defer SetLimit(defaultLimit)
+	for _, limit := range []uint32{defaultLimit, 0, 100, 1 << 20} {
+		SetLimit(limit)
+		for _, p := range []string{"/proc/self/cmdline", "/proc/version", "/proc/self/environ", "/proc/filesystems"} {
+			b, err := os.ReadFile(p)
+			if err != nil || len(b) == 0 {
+				continue
+			}
+			m, derr := DetectFile(p)
+			b2, _ := os.ReadFile(p)
+			if !bytes.Equal(b, b2) {
+				continue // content not stable
+			}
+			n++
+			if e := check(fmt.Sprintf("%s [limit %d]", p, limit), b, m, derr); e != nil {
+				return n, e
+			}
 		}
-		m, derr := DetectFile(p)
-		b2, _ := os.ReadFile(p)
-		if !bytes.Equal(b, b2) {
-			continue // content not stable
-		}
-		n++
-		if e := check(p, b, m, derr); e != nil {
-			return n, e
+		// named pipes: no size, no seeking; the bytes arrive while DetectFile reads
+		for i, content := range vfFifoContents() {
+			p := filepath.Join(vfScratchDir(), fmt.Sprintf("verif-fifo-%d-%d", os.Getpid(), i))
+			os.Remove(p)
+			if err := syscall.Mkfifo(p, 0o600); err != nil {
+				continue
+			}
+			done := make(chan struct{})
+			go func() {
+				defer close(done)
+				w, err := os.OpenFile(p, os.O_WRONLY, 0)
+				if err != nil {
+					return
+				}
+				w.Write(content) // EPIPE once the reader has what it wants and closes: fine
+				w.Close()
+			}()
+			m, derr := DetectFile(p)
+			// release the writer if DetectFile never opened the pipe, or stopped reading
+			if rd, err := os.OpenFile(p, os.O_RDONLY|syscall.O_NONBLOCK, 0); err == nil {
+				select {
+				case <-done:
+				case <-time.After(20 * time.Second):
+				}
+				rd.Close()
+			}
+			<-done
+			os.Remove(p)
+			n++
+			if e := check(fmt.Sprintf("named pipe delivering %d bytes [limit %d]", len(content), limit), content, m, derr); e != nil {
+				return n, e
+			}
 		}
 	}
 	return n, nil
+}
+
+func vfFifoContents() [][]byte {
+	out := [][]byte{
+		[]byte("{\"type\":\"FeatureCollection\",\"features\":[]}"),
+		[]byte("plain text through a pipe\n"),
+		vfBig("json-array", 9000),
+		vfBig("csv", 5000),
+	}
+	for _, s := range vfSeeds() {
+		if (s.Mime == "image/png" || s.Mime == "application/pdf" || s.Mime == "application/zip") && len(s.Data) < 60000 {
+			out = append(out, s.Data)
+		}
+	}
+	return out
 }
 
 // ---------------------------------------------------------------------------------
